@@ -277,3 +277,19 @@ M('c14-sync-read-refill-cursor-clamped-to-chunk-size', 'C14', 'R13', S,         
   _CLAMPED, "        self._buffer_pos = min(read_size, self._chunk_size)\n        return result + self._buffer[: self._buffer_pos]\n")
 M('c14-sync-read-refill-cursor-set-before-length-known', 'C14', 'R13', S,
   _CLAMPED, "        self._buffer_pos = read_size\n        return result + self._buffer[: min(read_size, self._buffer_len)]\n")
+
+# ----------------------------------------------------------------------- R14 the sub-reader runs with the parent's chunk size (seeded s7-c14-1)
+_SUB = "        return type(self)(read, self._normalize_size(None), self._chunk_size)\n"
+M('c14-delimit-drops-chunk-size', 'C14', 'R14', 'falcon/util/reader.py', _SUB,
+  "        return type(self)(read, self._normalize_size(None))\n")
+M('c14-delimit-default-chunk-size', 'C14', 'R14', 'falcon/util/reader.py', _SUB,
+  "        return type(self)(read, self._normalize_size(None), DEFAULT_CHUNK_SIZE)\n")
+M('c14-async-delimit-drops-chunk-size', 'C14', 'R14', 'falcon/asgi/reader.py',
+  "return type(self)(self._iter_delimited(delimiter), chunk_size=self._chunk_size)",
+  "return type(self)(self._iter_delimited(delimiter))")
+M('c14-async-delimit-chunk-size-none', 'C14', 'R14', 'falcon/asgi/reader.py',
+  "return type(self)(self._iter_delimited(delimiter), chunk_size=self._chunk_size)",
+  "return type(self)(self._iter_delimited(delimiter), chunk_size=None)")
+# negative controls verified by hand with --root (silent): `chunk_size=self._chunk_size` by keyword on the sync reader, positionally on
+# the async one; `chunk = self._chunk_size; return BufferedReader(read, ..., chunk)`; `self.__class__(...)`; `cls = type(self); cls(...)`.
+# `self._chunk_size * 2` is an unknown idiom (exit 2)
